@@ -254,6 +254,16 @@ Proof.
   rewrite Proofs.C11.accept_back by exact W. reflexivity.
 Qed.
 
+Lemma hm_want n o : hm_ok n o ->
+  exists w, calc_size (hm_bits n) hm_len = Some w /\ Z.of_N (lenN (raw_of o)) = w.
+Proof.
+  intros (st & -> & W & Hb & Hl). cbn [raw_of].
+  pose proof (Proofs.C11.wf_size_of st W) as Hs. pose proof (Proofs.C11.wf_b st W) as Hbits.
+  rewrite Hb, Hl in Hs.
+  destruct (Proofs.C11.calc_size_ok (hm_bits n) hm_len ltac:(rewrite <- Hb; exact Hbits) ltac:(unfold hm_len; lia)) as [Hcs _].
+  eexists. split; [exact Hcs|]. rewrite lenN_Z. exact Hs.
+Qed.
+
 Lemma upd_nth_mid {A} (pre : list A) y rest x : upd_nth (pre ++ y :: rest) (length pre) x = pre ++ x :: rest.
 Proof. induction pre as [|p pre IH]; cbn [app length upd_nth]; [reflexivity|]. rewrite IH. reflexivity. Qed.
 
@@ -396,15 +406,21 @@ Proof.
   - reflexivity.
   - exact Lx.
   - unfold from_save. cbn [sc_secs sc_ypos sc_hm sc_status].
-    rewrite lenN_Z, Lx. rewrite F. unfold lenN. rewrite Lx. fold (lenN (c_secs c)).
-    rewrite (lookup_set_other kWS) by reflexivity. rewrite (lookup_set_other kWS) by reflexivity.
-    rewrite (lookup_set_other kWS) by reflexivity. rewrite (lookup_set_other kWS) by reflexivity.
-    rewrite lookup_set_same. rewrite (new_hm_save_ok _ _ H2).
-    rewrite !(lookup_set_other kWSWG) by reflexivity. rewrite lookup_set_same. rewrite (new_hm_save_ok _ _ H1).
-    rewrite !(lookup_set_other kOFWG) by reflexivity. rewrite lookup_set_same. rewrite (new_hm_save_ok _ _ H3).
-    rewrite !(lookup_set_other kOF) by reflexivity. rewrite lookup_set_same. rewrite (new_hm_save_ok _ _ H4).
-    rewrite !(lookup_set_other kMB) by reflexivity. rewrite lookup_set_same. rewrite (new_hm_save_ok _ _ H5).
-    rewrite lookup_set_same. rewrite (new_hm_save_ok _ _ H6).
+    assert (EL: lenN xs = lenN (c_secs c)) by (unfold lenN; rewrite Lx; reflexivity). rewrite !EL.
+    rewrite lenN_Z. rewrite Lx. rewrite F.
+    destruct (hm_want _ _ H1) as (w & Hcs & W1). rewrite Hcs.
+    destruct (hm_want _ _ H2) as (w2 & Hcs2 & W2). rewrite Hcs in Hcs2. assert (w2 = w) by congruence. rewrite H in W2. clear H.
+    destruct (hm_want _ _ H3) as (w3 & Hcs3 & W3). rewrite Hcs in Hcs3. assert (w3 = w) by congruence. rewrite H in W3. clear H.
+    destruct (hm_want _ _ H4) as (w4 & Hcs4 & W4). rewrite Hcs in Hcs4. assert (w4 = w) by congruence. rewrite H in W4. clear H.
+    destruct (hm_want _ _ H5) as (w5 & Hcs5 & W5). rewrite Hcs in Hcs5. assert (w5 = w) by congruence. rewrite H in W5. clear H.
+    destruct (hm_want _ _ H6) as (w6 & Hcs6 & W6). rewrite Hcs in Hcs6. assert (w6 = w) by congruence. rewrite H in W6. clear H.
+    cbn [existsb].
+    rewrite !(lookup_set_other kWSWG) by reflexivity. rewrite !(lookup_set_other kWS) by reflexivity.
+    rewrite !(lookup_set_other kOFWG) by reflexivity. rewrite !(lookup_set_other kOF) by reflexivity.
+    rewrite !(lookup_set_other kMB) by reflexivity. rewrite !lookup_set_same.
+    rewrite W1, W2, W3, W4, W5, W6, Z.eqb_refl. cbn [negb orb].
+    rewrite (new_hm_save_ok _ _ H2), (new_hm_save_ok _ _ H1), (new_hm_save_ok _ _ H3), (new_hm_save_ok _ _ H4),
+            (new_hm_save_ok _ _ H5), (new_hm_save_ok _ _ H6).
     destruct (c_hm c); reflexivity.
   - exact Same.
 Qed.
